@@ -7,16 +7,22 @@
 EXTENDS Gzip, Json, TLC
 
 MCReqsFull  == [ae : {"yes", "no", "refused"}, ct : {"match", "nomatch", "absent"}, enc : {"", "br"},
-                cl : {FALSE, TRUE}, acc : {"other", "sse"}, method : {"GET", "HEAD"}]
+                cl : {FALSE, TRUE}, acc : {"other", "sse"}, method : {"GET", "HEAD"}, late : {FALSE}]
 MCReqsMid   == [ae : {"yes", "no", "refused"}, ct : {"match", "nomatch"}, enc : {"", "br"},
-                cl : {FALSE, TRUE}, acc : {"other"}, method : {"GET"}]
-MCReqsPair  == [ae : {"yes", "refused"}, ct : {"match", "nomatch"}, enc : {"", "br"}, cl : {TRUE}, acc : {"other"}, method : {"GET"}]
-MCReqsSmall == [ae : {"yes", "no"}, ct : {"match"}, enc : {""}, cl : {TRUE}, acc : {"other"}, method : {"GET"}]
+                cl : {FALSE, TRUE}, acc : {"other"}, method : {"GET"}, late : {FALSE}]
+\* informational headers: the parameters that matter for them, with the response headers set early or late
+MCReqsInfo  == [ae : {"yes", "no", "refused"}, ct : {"match", "nomatch"}, enc : {"", "br"},
+                cl : {FALSE, TRUE}, acc : {"other"}, method : {"GET", "HEAD"}, late : {FALSE, TRUE}]
+MCReqsInfoPair == [ae : {"yes", "no"}, ct : {"match"}, enc : {""}, cl : {TRUE}, acc : {"other"}, method : {"GET"}, late : {FALSE, TRUE}]
+MCReqsPair  == [ae : {"yes", "refused"}, ct : {"match", "nomatch"}, enc : {"", "br"}, cl : {TRUE}, acc : {"other"}, method : {"GET"}, late : {FALSE}]
+MCReqsSmall == [ae : {"yes", "no"}, ct : {"match"}, enc : {""}, cl : {TRUE}, acc : {"other"}, method : {"GET"}, late : {FALSE}]
 MCOne == {1}
 MCTwo == {1, 2}
 MCThree == {1, 2, 3}
 MCCodesFull  == {404, 204, 304}
 MCCodesSmall == {404}
+MCCodesInfo  == {103, 102, 404, 204}     \* informational codes before (and after) a final one
+MCCodesInfoSmall == {103, 404}
 MCChunksFull  == {"a", "b", "e"}        \* "e" is concretised as the empty chunk
 MCChunksSmall == {"a"}
 
@@ -27,7 +33,7 @@ HandlerJson(h) ==
      \* a response that cannot have a body (HEAD, 204, 304) has nothing to compress: for it only
      \* "never labelled gzip unless gzip is permitted" and the status are asserted
      modes |-> {[mode |-> m, ce |-> ExpCE(st.req, m), cl |-> ExpCL(st.req, m)] :
-                  m \in AllowedModes(st.req, Len(st.ops))
+                  m \in AllowedModes(st.req, NFinal(st.ops))
                         \cup (IF BodyAllowed(ExpStatus(h), st.req.method) THEN {} ELSE {"plain"})}]
 BehaviourJson == [hist |-> hist, handlers |-> [h \in Handlers |-> HandlerJson(h)]]
 
